@@ -612,10 +612,10 @@ Proof. exact pair_decision_generated. Qed.
    call succeeds and returns the closed form [bspec] (components paired where
    the spaces agree, x2 repeated above) ... *)
 Theorem legacy_binary_closed_form :
-  forall (T : Type) (cast : dt -> dt -> T -> T) (pv : bool) (F2 : dt -> dt) (f2 : dt -> T -> T -> T)
+  forall (T : Type) (cast : dt -> dt -> T -> T) (F2 : dt -> dt) (f2 : dt -> T -> T -> T)
          (t u : @ptree T),
   inner t u ->
-  exists r, legacy2 cast pv F2 f2 false t (A2Tree u) = Ok r
+  exists r, legacy2 cast F2 f2 false t (A2Tree u) = Ok r
             /\ cast_like cast t r = bspec cast F2 f2 t u
             /\ (forall ts, t = PNode ts -> r = bspec cast F2 f2 t u).
 Proof. exact @legacy2_inner. Qed.
@@ -626,10 +626,10 @@ Print Assumptions legacy_binary_closed_form.
    broadcasting of a (k.., n) array against an (m.., k.., n) array is --
    converted into the dtype of the space (uniform leaf dtype d). *)
 Theorem legacy_binary_is_numpy_broadcasting :
-  forall (T : Type) (cast : dt -> dt -> T -> T) (pv : bool) (F2 : dt -> dt) (f2 : dt -> T -> T -> T) (d : dt)
+  forall (T : Type) (cast : dt -> dt -> T -> T) (F2 : dt -> dt) (f2 : dt -> T -> T -> T) (d : dt)
          (ts : list (@ptree T)) (u : @ptree T),
   inner (PNode ts) u -> all_dtype d (PNode ts) ->
-  exists r, legacy2 cast pv F2 f2 false (PNode ts) (A2Tree u) = Ok r
+  exists r, legacy2 cast F2 f2 false (PNode ts) (A2Tree u) = Ok r
             /\ flat r = map2 (fun v w => conv cast (F2 d) d (f2 d v w))
                              (flat (PNode ts)) (tile (copies (PNode ts) u) (flat u)).
 Proof. exact @legacy2_is_numpy_broadcasting. Qed.
